@@ -789,6 +789,75 @@ class Gen:
         if self.rng.random() < 0.3 and self.room(2):
             self.do({'op': 'new', 'cls': 'A', 'src': r, 'sets': [], 'S': []})
 
+    def g_cut_tail(self):
+        """The tail is cut off exactly where one setting stops while another continues across the cut - through every
+        spelling of the cut (clip, slice, rstrip, removesuffix, assign_str, in place or not, AnsiStr) - and the result is
+        probed by appending text: nothing may stay open beyond its end."""
+        if not self.room(8):
+            return
+        n = self.rng.randint(3, 7)
+        e_ = self.rng.randint(2, n - 1)
+        i = self.rng.randint(0, e_ - 1)
+        body = ''.join(self.rng.choice('ab') for _ in range(e_))
+        text = body[:-1] + 'a' + '-' * (n - e_)          # the tail is '-'...: rstrip('-') / removesuffix cut at e_
+        outer, inner = self.rng.choice([('31', '1'), ('1', '31'), ('41', '4'), ('34', '31'), ('38;5;9', '3')])
+        r = self.do({'op': 'new', 'cls': 'S', 'text': text, 'sets': [{'k': 'aset', 'v': outer}], 'S': [outer]})['res'][0]
+        self.do({'op': 'apply', 'r': r, 'sets': [{'k': 'aset', 'v': inner}], 'S': [inner], 'start': i, 'end': e_, 'top': self.rng.random() < 0.7})
+        if self.rng.random() < 0.3:
+            r = self.do({'op': 'new', 'cls': 'A', 'src': r, 'sets': [], 'S': []})['res'][0]
+        S = self.m.kinds[r] == 'S'
+        how = self.rng.choice(['clip', 'clip', 'slice', 'strip', 'rmfix', 'assign'] if S else ['clip', 'slice', 'strip', 'rmfix'])
+        ip = S and self.rng.random() < 0.7
+        if how == 'clip':
+            o = {'op': 'clip', 'r': r, 'start': self.rng.choice([None, 0]), 'end': self.rng.choice([e_, e_ - n]), 'inplace': ip}
+        elif how == 'slice':
+            o = {'op': 'slice', 'r': r, 'start': self.rng.choice([None, 0]), 'stop': e_}
+        elif how == 'strip':
+            o = {'op': 'strip', 'r': r, 'm': self.rng.choice(['rstrip', 'strip']), 'chars': '-', 'inplace': ip}
+        elif how == 'rmfix':
+            o = {'op': 'rmfix', 'r': r, 'm': 'removesuffix', 's': '-' * (n - e_), 'inplace': ip}
+        else:
+            o = {'op': 'assign_str', 'r': r, 'text': text[:e_]}
+        ev = self.do(o)
+        if ev['out'] == 'ok':
+            res = ev['res'][0] if ev.get('res') else r
+            self.probe_closed(res, 'probe_cut_closed')
+
+    def g_many_end(self):
+        """Three to six settings of different groups end at one index inside the text while another continues."""
+        r = self.pick('S')
+        if not r or self.length(r) < 3:
+            return
+        n = self.length(r)
+        cont = self.rng.choice(['41', '44', '1', '38;2;1;2;3', '31', '4', '48;5;17'])
+        self.do({'op': 'apply', 'r': r, 'sets': [{'k': 'aset', 'v': cont}], 'S': [cont], 'start': 0, 'end': None, 'top': self.rng.random() < 0.5})
+        pool = [c for c in ['1', '3', '4', '9', '53', '5', '7', '31', '58;5;3', '38;5;208', '21', '2'] if c != cont]
+        k = self.rng.randint(3, 6)
+        S = self.rng.sample(pool, k)
+        j = self.rng.randint(2, n - 1)
+        i = self.rng.randint(0, j - 1)
+        if self.rng.random() < 0.5:
+            self.do({'op': 'apply', 'r': r, 'sets': [{'k': 'aset', 'v': c} for c in S], 'S': S, 'start': i, 'end': j, 'top': True})
+        else:
+            for c in S:
+                self.do({'op': 'apply', 'r': r, 'sets': [{'k': 'aset', 'v': c}], 'S': [c], 'start': self.rng.randint(0, j - 1), 'end': j, 'top': True})
+
+    def g_clear_over(self):
+        """A clearing setting (39, 49, 22, 24, ...) on an inner range over an active setting of its group, with other
+        settings staying on."""
+        r = self.pick('S')
+        if not r or self.length(r) < 3:
+            return
+        n = self.length(r)
+        g = self.rng.choice(sorted(GROUP_CODES))
+        x, clr = self.rng.choice(GROUP_CODES[g][0]), GROUP_CODES[g][1]
+        keep = [GROUP_CODES[h][0][0] for h in self.rng.sample([h for h in ('bold', 'ital', 'cross', 'fg', 'bg', 'over') if h != g], self.rng.randint(0, 3))]
+        S = keep + [x]
+        self.rng.shuffle(S)
+        self.do({'op': 'apply', 'r': r, 'sets': [{'k': 'aset', 'v': c} for c in S], 'S': S, 'start': 0, 'end': None, 'top': True})
+        i = self.rng.randint(1, n - 2)
+        self.do({'op': 'apply', 'r': r, 'sets': [{'k': 'aset', 'v': clr}], 'S': [clr], 'start': i, 'end': self.rng.randint(i + 1, n - 1), 'top': True})
+
     def ip(self):
         return self.rng.random() < 0.4
 
@@ -1066,6 +1135,79 @@ class Gen:
                 r = e['res'][0]
             self.do({'op': 'simplify', 'r': r})
 
+    QMQ_QUERIES = ['find_settings', 'settings_at', 'iter', 'render', 'render8', 'strip', 'split', 'splitlines', 'partition',
+                   'query', 'index', 'slice', 'rmfix', 'case', 'pad', 'fmt', 'replace', 'copy', 'eq', 'reparse']
+    QMQ_MUTATORS = ['apply', 'apply', 'remove', 'remove', 'clear', 'iadd', 'pad', 'case', 'clip', 'strip', 'rmfix', 'replace',
+                    'assign_str', 'simplify', 'expandtabs', 'matching', 'crossed_stops']
+
+    def _with_subject(self, r, name, inplace):
+        """Run generator g_<name> with the first pick() forced to r and the in-place switch forced."""
+        save_pick, save_ip = self.pick, self.ip
+        state = {'first': True}
+
+        def pick(kinds='SA'):
+            if state['first']:
+                state['first'] = False
+                return r
+            return save_pick(kinds)
+        self.pick, self.ip = pick, (lambda: inplace)
+        n0 = len(self.oplist)
+        try:
+            getattr(self, 'g_' + name)()
+        finally:
+            self.pick, self.ip = save_pick, save_ip
+        return self.oplist[n0:]
+
+    def g_qmq(self):
+        """Query, mutate in place, same query again: whatever a value answered before an in-place change (a rendering,
+        a search, a piece, an iteration, ...) it must answer afresh afterwards - state remembered on the object or in
+        the module between calls must never show."""
+        import copy as _copy
+        r = self.pick('S')
+        if not r or not self.room(10):
+            return
+        qs = [q for q in self.rng.sample(self.QMQ_QUERIES, 2) if hasattr(self, 'g_' + q)]
+        asked = []
+        for q in qs:
+            asked += self._with_subject(r, q, False)
+        asked = [o for o in asked if o.get('r') == r and not o.get('inplace') and 'tag' not in o
+                 and not any(k in o for k in ('other', 'new', 'items', 'src'))]
+        if not asked:
+            return
+        for _ in range(self.rng.choice([1, 1, 2])):
+            mname = self.rng.choice(self.QMQ_MUTATORS)
+            if mname == 'clip':
+                n = self.length(r)
+                self.do({'op': 'clip', 'r': r, 'start': self.rng.choice([None, 0, 0, 1]), 'end': self.rng.choice([None, 0, n - 1, -1, self.bound(r)]), 'inplace': True})
+            else:
+                self._with_subject(r, mname, True)
+        for o in asked:
+            if self.room(8):
+                self.do(_copy.deepcopy(o))
+
+    def g_parse_twice(self):
+        """The same raw text converted twice, the first result changed in place in between."""
+        if not self.room(6):
+            return
+        t = self.text(1)
+        forms, S = self.settings()
+        e = self.do({'op': 'new', 'cls': 'S', 'text': t, 'sets': forms, 'S': S})
+        if e['out'] != 'ok' or not e['res']:
+            return
+        q = ''.join(chr(c) for c in self.m.snaps[e['res'][0]]['q'])
+        first = self.do({'op': 'new', 'cls': self.rng.choice('SSA'), 'text': q, 'sets': [], 'S': []})
+        if first['out'] != 'ok' or not first['res']:
+            return
+        r = first['res'][0]
+        if self.m.kinds[r] == 'S':
+            n = self.length(r)
+            forms2, S2 = self.settings()
+            self.do({'op': 'apply', 'r': r, 'sets': forms2, 'S': S2, 'start': self.rng.choice([0, 0, 1]), 'end': self.rng.choice([None, n, n - 1]),
+                     'top': self.rng.random() < 0.7})
+            if self.rng.random() < 0.4:
+                self._with_subject(r, self.rng.choice(['remove', 'iadd', 'pad', 'clip', 'simplify']), True)
+        self.do({'op': 'new', 'cls': self.rng.choice('SSA'), 'text': q, 'sets': [], 'S': []})
+
     def epilogue(self, names):
         """Run the given probe generators on every live library object."""
         for r in self.regs_of('SA'):
@@ -1095,7 +1237,7 @@ class Gen:
 
 
 W_BASE = {'new': 1.0, 'new_from': 0.5, 'apply': 3, 'remove': 2, 'clear': 0.2, 'slice': 2, 'index': 0.7, 'clip': 0.7,
-          'iter': 0.2, 'crossed_stops': 0.5, 'add': 1.5, 'iadd': 1.5, 'join': 0.7, 'split_rejoin': 0.7, 'copy': 0.8, 'render': 0.5, 'iter_join': 0.3}
+          'iter': 0.2, 'crossed_stops': 0.5, 'cut_tail': 0.4, 'qmq': 0.6, 'parse_twice': 0.2, 'add': 1.5, 'iadd': 1.5, 'join': 0.7, 'split_rejoin': 0.7, 'copy': 0.8, 'render': 0.5, 'iter_join': 0.3}
 
 
 def weights(**over):
@@ -1105,15 +1247,15 @@ def weights(**over):
 
 
 PROFILES = {
-    'C01': weights(render=0, render8=1.5, apply=4, remove=2, slice=1.5, add=1.5, iadd=1.5, copy=0.3),
+    'C01': weights(render=0, render8=1.5, apply=4, remove=2, slice=1.5, add=1.5, iadd=1.5, copy=0.3, many_end=0.8, clear_over=0.8),
     'C15': weights(render=0, render8=3, iadd=3.5, add=1, apply=3, remove=1.5, new=2, slice=1, clip=0.7, replace=0.7, pad=0.5,
-                   simplify=0.4, copy=0.3),
-    'C03': weights(render=0, reparse=1.2, simplify=1.2, apply=4, remove=2),
+                   simplify=0.4, copy=0.3, many_end=0.6, clear_over=0.6),
+    'C03': weights(render=0, reparse=1.2, simplify=1.2, apply=4, remove=2, parse_twice=0.8, many_end=1.0, clear_over=0.8),
     'C10': dict(new=1.5, case=2, pad=2, strip=2, rmfix=2, replace=2, expandtabs=1, split=2.5, splitlines=1.5, partition=2, query=8,
-                assign_str=0.5, apply=0.5),
+                assign_str=0.5, apply=0.5, qmq=1.2),
     'C11': dict(nonuniform=2.5, strip_enclosed=1.5, new=0.5, case=1.5, strip=2, rmfix=2, replace=3.5, expandtabs=1, split=3.5, splitlines=1.5,
-                partition=2.5, assign_str=1.5, apply=1.5, remove=0.5, add=0.5),
-    'C12': dict(nonuniform=2, new=1, pad=5, pad_nested=1.5, pad_pair=1.5, pad_huge=0.2, fmt=5, apply=2, remove=0.5, slice=0.5, add=0.5),
+                partition=2.5, assign_str=1.5, apply=1.5, remove=0.5, add=0.5, qmq=1.2, crossed_stops=0.5, cut_tail=0.8),
+    'C12': dict(nonuniform=2, new=1, pad=5, pad_nested=1.5, pad_pair=1.5, pad_huge=0.2, fmt=5, apply=2, remove=0.5, slice=0.5, add=0.5, qmq=1.0, crossed_stops=0.4),
     'C16': weights(matching=6, apply_match=1.0, apply=3, remove=1, slice=0.5, render=0.2, case=1.5, copy=0.3, match_case_match=1.5, matching_adjacent=1.5),
     'C17': weights(find_settings=5, settings_at=2.5, apply=4, remove=2, slice=0.5, add=0.7, iadd=0.7, pad=1.2, assign_str=0.6, grow_then_slice=1.5, find_overlap=1.5, shrink_then_find=1.5,
                    strip=0.5, new_from=0.8),
@@ -1229,6 +1371,39 @@ def stack_cases():
     return cases
 
 
+def keep_clear_cases():
+    """A clearing setting (39, 22, 24, ...) laid over an active setting of its group while one to three settings of
+    OTHER groups stay on unchanged (short ones, and a long rgb one): the renderer's choice between emitting the
+    difference and 'reset and re-emit everything' depends on how long what stays on is."""
+    cases = []
+    gs = sorted(GROUP_CODES)
+    for g in gs:
+        x, clr = GROUP_CODES[g][0][0], GROUP_CODES[g][1]
+        rest = [h for h in ('bold', 'ital', 'cross', 'fg', 'bg') if h != g]
+        keeps = [[GROUP_CODES[rest[0]][0][0]], [GROUP_CODES[h][0][0] for h in rest[:2]], [GROUP_CODES[h][0][0] for h in rest[:3]],
+                 ['48;2;10;20;30' if g != 'bg' else '38;2;10;20;30']]
+        for K in keeps:
+            cases.append([K + [x], K + [x, clr], K + [x]])
+            cases.append([[x] + K, [x] + K + [clr]])
+            cases.append([K + [clr], K + [clr, x], K])
+            cases.append([K + [x, clr], K + [x]])
+    return cases
+
+
+def many_end_cases():
+    """Three to six settings of different groups end at one index while another setting continues across it."""
+    cases = []
+    pool = ['1', '3', '4', '9', '53', '58;5;3', '5', '7']
+    for c in ('41', '1', '38;2;1;2;3', '31', '4'):
+        others = [o for o in pool if o != c]
+        for k in (3, 4, 5, 6):
+            o = others[:k]
+            cases.append([[c] + o, [c]])
+            cases.append([o + [c], [c], o[:2] + [c]])
+            cases.append([[c], [c] + o, [c]])
+    return cases
+
+
 def gen_render_family(m, rng, job):
     g = Gen(m, rng, W_BASE)
     cases = job['cases']
@@ -1284,4 +1459,17 @@ def gen_parse_input(m, rng, job):
         r = e['res'][0]
         g.do({'op': 'render', 'r': r, 'how': 'str'})
         g.do({'op': 'reparse', 'r': r})
+    if e['out'] == 'ok' and e['res'] and rng.random() < 0.3:
+        # the same raw text converted again after the first result was changed in place (a conversion must not depend
+        # on what happened to an earlier result of the same text)
+        r = e['res'][0]
+        if m.kinds[r] == 'S' and g.length(r) > 0:
+            n = g.length(r)
+            cps_ = [0] + g.change_points(r) + [n]
+            forms, S = g.settings()
+            g.do({'op': 'apply', 'r': r, 'sets': forms, 'S': S, 'start': rng.choice(cps_), 'end': rng.choice([None] + cps_),
+                  'top': rng.random() < 0.7})
+            if rng.random() < 0.3:
+                g.do({'op': 'remove', 'r': r, 'all': True, 'start': rng.choice(cps_), 'end': None})
+        g.do({'op': 'new', 'cls': 'A' if rng.random() < 0.3 else 'S', 'text': text, 'sets': [], 'S': []})
     return g.oplist, {}
